@@ -1,4 +1,5 @@
 import DispatchVerif.Core.LaneFFifoMain
+import DispatchVerif.Core.LaneFF15
 import DispatchVerif.Core.LaneRProof
 /-! # C02 — serial queues run one item at a time, in submission order
 
@@ -18,10 +19,21 @@ theorem serial_fifo {s : LaneF.St} (h : LaneF.Reachable s) :
     s.sh.pushed = s.sh.startedP ++ s.sh.pend ++ s.sh.items.map (·.id) :=
   LaneF.serial_fifo h
 
-/-- when nobody owns the lane, nothing is in hand: every pushed item has started or is still queued. The fast-path
-    `dispatch_sync` is only taken from the completely idle word, hence only when every pushed item has started -/
+/-- when nobody owns the lane, nothing is in hand: every pushed item has started or is still queued. (The idle word does
+    *not* imply that nothing is queued — see F15 below.) -/
 theorem serial_fifo_unowned {s : LaneF.St} (h : LaneF.Reachable s) (ho : s.sh.dq.O = none) :
     s.sh.pushed = s.sh.startedP ++ s.sh.items.map (·.id) :=
   LaneF.serial_fifo_unowned h ho
+
+/-- **F15** — "A before B whenever A's submission returned before B's began" is false when B is a synchronous submission on
+    the fast path: a reachable state in which item 2's asynchronous submission has returned and thread 3 has not begun, from
+    which thread 3's `dispatch_sync` item runs while item 2 has still not started. The schedule is the one observed on the real
+    library (harness/f15_sync_overtake.c forces it): worker about to unlock, first pusher stalled before its wake-up, second
+    pusher returns, unlock leaves the idle word, the fast path takes the lane. -/
+theorem F15_sync_fast_path_overtakes :
+    ∃ s1 s2, LaneF.Reachable s1 ∧ s1.pcs 2 = .idle ∧ s1.pcs 3 = .idle ∧ 2 ∈ s1.sh.pushed ∧
+      (∃ it ∈ s1.sh.items, it.id = 2 ∧ it.linked = true) ∧
+      LaneF.exec s1 LaneF.f15b = some s2 ∧ s2.pcs 3 = .sRunningFast 3 ∧ 2 ∉ s2.sh.startedP ∧ s2.sh.dq.O = some 3 :=
+  LaneF.sync_fast_path_overtakes
 
 end C02
